@@ -56,7 +56,22 @@ class P(Prop):
         for _ in range(self.n_cases(tier, override)):
             plant = pg.gen_electric_plant(rng)
             inp = pg.gen_electric_inputs(rng, plant)
-            out.append({"plant": plant, "inp": inp})
+            # the caller hands ONE array object to every component whose series has the same values
+            inp["alias"] = rng.random() < 0.3
+            for d, ci in zip(plant["comps"], inp["comps"]):
+                if pg.kind_of(d["cls"]) in ("PtiPto", "Storage") and not any(ci["pin"]):
+                    ci["set"] = rng.choice(["input", "from_output"])
+            case = {"plant": plant, "inp": inp}
+            # a second balance on the same object after ONLY statuses changed (power set-points and sharing modes stay)
+            if rng.random() < 0.3:
+                import copy
+                inp2 = copy.deepcopy(inp)
+                for d, ci in zip(plant["comps"], inp2["comps"]):
+                    if pg.kind_of(d["cls"]) != "Consumer":
+                        p_on = rng.choice([1.0, 0.8, 0.5])
+                        ci["status"] = [rng.random() < p_on for _ in range(inp["n"])]
+                case["inp2"] = inp2
+            out.append(case)
         return out
 
     def run(self, case):
@@ -64,8 +79,19 @@ class P(Prop):
         with np.errstate(all="ignore"):
             sysm, objs = pg.build_electric_system(plant)
             pg.apply_electric_inputs(sysm, objs, plant, inp)
-            pin_before = [np.array(o.power_input, dtype=float).copy() for o in objs]
-            sysm.do_power_balance_calculation()
+            out = self.balance_and_observe(plant, sysm, objs)
+            # (a first balance on a bus without capacity leaves nan/inf set-points behind - outside the premise)
+            finite = all(x == x and abs(x) != float("inf") for r in out["res"] for x in r)
+            if case.get("inp2") and finite:
+                for d, o, ci in zip(plant["comps"], objs, case["inp2"]["comps"]):
+                    if pg.kind_of(d["cls"]) != "Consumer":
+                        o.status = np.array(ci["status"], dtype=bool)
+                out["second"] = self.balance_and_observe(plant, sysm, objs)
+        return out
+
+    def balance_and_observe(self, plant, sysm, objs):
+        pin_before = [np.array(o.power_input, dtype=float).copy() for o in objs]
+        sysm.do_power_balance_calculation()
         res = []
         for d, o in zip(plant["comps"], objs):
             k = pg.kind_of(d["cls"])
@@ -76,7 +102,17 @@ class P(Prop):
                 "out_ps": [[float(x) for x in np.atleast_1d(o.power_output)] for o in objs]}
 
     def term(self, case, obs):
-        plant, inp = case["plant"], case["inp"]
+        t = self.term_one(case["plant"], case["inp"], obs)
+        if case.get("inp2") and "second" in obs:
+            # the set-points of storage and PTI/PTO in the second balance are what the object holds then
+            inp2 = {**case["inp2"], "comps": [dict(ci) for ci in case["inp2"]["comps"]]}
+            for d, ci, p in zip(case["plant"]["comps"], inp2["comps"], obs["second"]["pin_set"]):
+                if pg.kind_of(d["cls"]) in ("PtiPto", "Storage"):
+                    ci["pin"] = [Fraction(x) for x in p]
+            t = "(" + t + "\n && " + self.term_one(case["plant"], inp2, obs["second"]) + ")%bool"
+        return t
+
+    def term_one(self, plant, inp, obs):
         for d, r in zip(plant["comps"], obs["rated"]):
             d["rated_obs"] = Fraction(r)
         t = (f"{self.CHECK_FN} [{coq_plant(plant, inp, obs['pin_set'])[1:-1]}]\n  "
@@ -94,7 +130,14 @@ class P(Prop):
         return components_at(swbs, [tuple(b) for b in plant["breakers"]], inp["sts"][t])
 
     def oracle(self, case, obs):
-        plant, inp = case["plant"], case["inp"]
+        why = self.oracle_one(case["plant"], case["inp"], obs)
+        if why is None and case.get("inp2") and "second" in obs:
+            why = self.oracle_one(case["plant"], case["inp2"], obs["second"])
+            if why:
+                why = "second balance on the same object after only statuses changed: " + why
+        return why
+
+    def oracle_one(self, plant, inp, obs):
         n = inp["n"]
         for t in range(n):
             comp = self.groups(plant, inp, t)
@@ -138,6 +181,10 @@ class P(Prop):
                     t.append("mixed-mode-" + k)
             if k != "Consumer" and len(set(ci["status"])) > 1:
                 t.append("status-change")
+        if inp.get("alias"):
+            t.append("equal series handed over as one array object")
+        if case.get("inp2") and "second" in obs:
+            t.append("second-balance-after-status-change-only")
         if inp.get("sts") and any(inp["sts"][i] != inp["sts"][i - 1] for i in range(1, inp["n"])):
             t.append("bus-reconfiguration")
         if any(x != x or abs(x) == float("inf") for r in obs.get("res", []) for x in r):
